@@ -5,8 +5,8 @@ package main
 // (positions and display-name quoting aside).
 
 import (
-	"errors"
 	"bytes"
+	"errors"
 
 	"github.com/mna/pigeon/ast"
 	"github.com/mna/pigeon/bootstrap"
@@ -149,7 +149,7 @@ func Harness_C20op(arg int) {
 // Harness_C20free: symbolic bytes from the characters that mean something to
 // either front end, inserted into a concrete text - between tokens, inside a
 // multi-line comment, a line comment, after a label, inside a class, inside a
-// string. Whatever the hole contains: if the bootstrap front end accepts the
+// string, inside a code block, inside a raw string. Whatever the hole contains: if the bootstrap front end accepts the
 // text, pigeon accepts it and builds the same AST.
 var c20Free = [][2]string{
 	{"A <- 'a' ", " 'c'\n"},
@@ -158,15 +158,25 @@ var c20Free = [][2]string{
 	{"A <- x:", "'c' / 'd'\n"},
 	{"A <- [a", "] 'c'\n"},
 	{"A <- \"a", "\" 'c'\n"},
+	{"A <- 'a' {", " return nil, nil }\nB <- 'b'\n"},
+	{"A <- `a", "` 'c'\n"},
 }
 
-const c20FreeAlphabet = "/*'\"aB()[]<-=:;{}?+!&.^\\i \n"
+const c20FreeAlphabet = "/*'\"aB()[]<-=:;{}?+!&.^\\i \n\r`"
+
+const c20CodeAlphabet = "aB()[]<-=:;{}?+!&.^i \n\r"
 
 func Harness_C20free(arg int) {
 	sk, n := c20Free[arg/8], arg%8
 	hole := symBytes("f", n)
 	for _, b := range hole {
-		symAssume(symInSet(b, c20FreeAlphabet))
+		if arg/8 == 6 {
+			// inside a code block the text is Go: quotes and comment starters would have to be balanced the Go way
+			// (pigeon checks that, the bootstrap scanner only counts braces) - not part of the common subset
+			symAssume(symInSet(b, c20CodeAlphabet))
+		} else {
+			symAssume(symInSet(b, c20FreeAlphabet))
+		}
 	}
 	text := append(append([]byte(sk[0]), hole...), sk[1]...)
 	c20Compare(text, "free hole")
